@@ -405,10 +405,33 @@ class Ctx:
                 from .solve import any_quantifier, confirm_unsat
 
                 if os.environ.get("PYVC_TRUST_Z3") != "1" and any_quantifier(self.pc_raw + [goal]):
-                    # z3 5.1.0's `unsat` on quantified queries is not believed on its own
-                    ok_c, by, dis = confirm_unsat(dump_smt2(cone_of_influence(self.pc_raw, goal) + [z3.Not(goal)]), budget_s=max(20, self.ex.oblig_timeout_ms // 500))
-                    if ok_c:
-                        ob.solver = "z3+" + by
+                    # z3 5.1.0's `unsat` on quantified queries is not believed on its own.  The goal is
+                    # split into its conjuncts: a quantifier-free piece is re-asked to z3 alone, a
+                    # quantified piece must be confirmed by an independent solver
+                    budget = max(20, self.ex.oblig_timeout_ms // 500)
+                    by_all, ok_all, dis = set(), True, False
+                    for part in conjuncts(goal):
+                        cone_p = cone_of_influence(self.pc_raw, part)
+                        if not any_quantifier(cone_p + [part]):
+                            s2 = z3.Solver()
+                            s2.set("timeout", self.ex.oblig_timeout_ms)
+                            s2.add(cone_p)
+                            s2.add(z3.Not(part))
+                            try:
+                                ok_p = s2.check() == z3.unsat
+                            except z3.Z3Exception:
+                                ok_p = False
+                            by_p = "z3"
+                        else:
+                            ok_p, by_p, d_p = confirm_unsat(dump_smt2(cone_p + [z3.Not(part)]), budget_s=budget)
+                            dis = dis or d_p
+                        if not ok_p:
+                            ok_all = False
+                            break
+                        by_all.add(by_p)
+                    if ok_all:
+                        extra = sorted(by_all - {"z3"})
+                        ob.solver = "z3" + ("+" + "+".join(extra) if extra else "")
                     else:
                         ob.status, ob.solver = "unknown", "z3-unsat-unconfirmed" + ("(disagreement)" if dis else "")
                         r = z3.unknown
@@ -575,6 +598,18 @@ def _has_var(t):
     if z3.is_var(t):
         return True
     return any(_has_var(c) for c in t.children())
+
+
+def conjuncts(f):
+    """top-level conjuncts of a formula (And flattened)"""
+    out, work = [], [f]
+    while work:
+        x = work.pop()
+        if z3.is_and(x):
+            work.extend(x.children())
+        else:
+            out.append(x)
+    return out
 
 
 def dump_smt2(formulas):
